@@ -763,7 +763,13 @@ func init() {
 					h, err := s.SavePubKeys(c16bg, c16Keys(op.A))
 					return c16Out{E: c16Classify(err), V: c16X([]byte(h))}, nil
 				case "v.sp":
-					h, err := s.SaveVotePowers(c16bg, c16Pows(op.A))
+					pows := c16Pows(op.A)
+					h, err := s.SaveVotePowers(c16bg, pows)
+					// the caller reuses its slice (the shipped store copies the powers on save;
+					// for public keys it documents that it does not, so those are left alone)
+					for i := range pows {
+						pows[i] = ^pows[i]
+					}
 					return c16Out{E: c16Classify(err), V: c16X([]byte(h))}, nil
 				case "v.lk":
 					h, _ := c16SelHash(true, op.A)
